@@ -163,7 +163,10 @@ def main_check(pid, tier):
         for s in res.get("samples", []):
             if len(samples) < 6:
                 samples.append(s)
-        violations.extend(res.get("violations", []))
+        for v_ in res.get("violations", []):
+            if isinstance(v_, dict):
+                v_.setdefault("shard_spec", spec)       # replay of last resort: re-run the shard that saw it
+            violations.append(v_)
         observations.extend(res.get("observations", []))
         for k, v in res.get("line_hits", {}).items():
             line_hits.setdefault(k, set()).update(v)
@@ -381,11 +384,22 @@ def main_replay(pid, path):
     with open(path) as f:
         doc = json.load(f)
     w = doc.get("witness", doc)
-    spec = {"name": "replay", "replay": w, "extra_path": w.get("extra_path")}
+    shard_spec = w.get("shard_spec")
+    spec = {"name": "replay", "replay": {k: v for k, v in w.items() if k != "shard_spec"},
+            "extra_path": w.get("extra_path") or (shard_spec or {}).get("extra_path")}
     results, notes = run_shards(pid, [spec], 3600)
     res = results[0]
+    same = [v for v in (res or {}).get("violations", []) if v.get("key") == w.get("key")]
+    if (res is None or not same) and shard_spec:
+        # the minimal replay did not reproduce it (or this kind of witness has none): re-run the whole shard that saw it,
+        # which is deterministic, and keep what it reports under the same key
+        results, notes = run_shards(pid, [shard_spec], 7200)
+        res2 = results[0]
+        if res2 is not None:
+            res = dict(res2)
+            res["violations"] = [v for v in res2.get("violations", []) if v.get("key") == w.get("key")]
     if res is None:
-        print("INCONCLUSIVE property=%s reason=replay shard failed: %s" % (pid, notes[0][:800]))
+        print("INCONCLUSIVE property=%s reason=replay shard failed: %s" % (pid, notes[0][-800:]))
         return 2
     known = load_known()
     rc = 0
